@@ -278,7 +278,7 @@ pub fn run(ctx: &Ctx) {
     // L3: the same instructions inside whole programs through the real driver loop (forward targets, self-targeting
     // LOOPx, counted backward loops), flags established with PUSH/POPF, registers printed afterwards
     crate::l3fam::run(ctx, crate::l3fam::Fam::Jumps, ctx.tier.pick(400usize, 6000usize));
-    for c in ["l3/jump/taken", "l3/jump/not-taken", "l3/jump/self-target-repeated", "l3/jump/backward-loop-iterated"] {
+    for c in ["l3/jump/taken", "l3/jump/not-taken", "l3/jump/self-target-repeated", "l3/jump/backward-loop-iterated", "l3/jump/backward-memory-counted-taken-3-times-or-more"] {
         ctx.require_class(c, 10);
     }
     // grammar cross-check: every jump/loop terminal in the working tree's grammar is in our table
